@@ -17,9 +17,7 @@ Open Scope Z_scope.
 Definition simple (t : node) : bool :=
   match t with
   | NAssign (NName g) e =>
-      (* g = 1 + g is left out: it compiles to INC, which computes g + 1; the two agree except
-         that this development does not prove IEEE addition commutative *)
-      pure e && (negb (is_inc g e) || node_eqb e (NBin "+" (NName g) (NInt 1)))
+      pure e
   | _ => pure t
   end.
 
@@ -56,7 +54,7 @@ Proof.
     destruct t; cbn [theight] in Hf; try exact Hf. discriminate Hp. }
   destruct t; try (apply Pure; exact Hs).
   match goal with H : simple (NAssign ?a ?b) = true |- _ => destruct a; try discriminate H; rename b into rhs end.
-  cbn [simple] in Hs. apply andb_prop in Hs. destruct Hs as [Hp _].
+  cbn [simple] in Hs. pose proof Hs as Hp.
   cbn [theight] in Hf. destruct fuel as [|fuel]; [lia|]. cbn [eval sem_simple].
   rewrite (eval_pure rhs Hp fuel env st ltac:(lia)).
   destruct (den (s_globals st) rhs) as [x|err]; cbn [ctl_of bind fst snd].
@@ -106,7 +104,7 @@ Lemma simple_wfb t : simple t = true -> wfb t = true.
 Proof.
   intros H. destruct t; try (apply pure_wfc in H; exact H); try discriminate H.
   destruct t1; try discriminate H.
-  cbn [simple] in H. apply andb_prop in H. destruct H as [Hp _].
+  cbn [simple] in H. pose proof H as Hp.
   cbn [wfb wfc is_var andb]. apply pure_wfc. exact Hp.
 Qed.
 
@@ -122,7 +120,7 @@ Proof.
                          apply (grows_le (Z.of_nat (clen e))); [pose proof (clen_le_size e Hs); lia|apply comp_grows; exact Hs] end);
         try discriminate Hs.
       match goal with H : simple (NAssign ?a ?b) = true |- _ => destruct a; try discriminate H; rename b into rhs end.
-      cbn [simple] in Hs. apply andb_prop in Hs. destruct Hs as [Hp _].
+      cbn [simple] in Hs. pose proof Hs as Hp.
       rewrite comp_assign_unfold. cbn [esize].
       pose proof (clen_le_size rhs Hp) as B. pose proof (esize_pos rhs) as P.
       apply grows_if.
@@ -151,7 +149,7 @@ Proof.
   intros H. unfold strewrite.
   destruct t; try (rewrite (resolve_pure _ H); reflexivity); try discriminate H.
   match goal with H : simple (NAssign ?a ?b) = true |- _ => destruct a; try discriminate H; rename b into rhs end.
-  cbn [simple] in H. apply andb_prop in H. destruct H as [Hp _].
+  cbn [simple] in H. pose proof H as Hp.
   cbn [resolve]. unfold rbind. rewrite (resolve_pure rhs Hp). reflexivity.
 Qed.
 
@@ -186,13 +184,11 @@ Proof.
     split; [exact W|]. destruct (den (v_globals v) t); exact R. }
   destruct t; try (apply Pure; exact Hs).
   match goal with H : simple (NAssign ?a ?b) = true |- _ => destruct a; try discriminate H; rename b into rhs end.
-  cbn [simple] in Hs. apply andb_prop in Hs. destruct Hs as [Hp Hi]. cbn [sem_simple].
+  cbn [simple] in Hs. pose proof Hs as Hp. cbn [sem_simple].
   destruct (is_inc n rhs) eqn:Hinc.
-  - (* the increment *)
-    cbn [negb orb] in Hi.
-    apply (node_eqb_pure rhs Hp (NBin "+" (NName n) (NInt 1)) eq_refl) in Hi. subst rhs.
+  - (* the increment, in either form *)
     destruct (bytecode_run_inc n _ s s' v c m session_fuel Hinc Hwf Hid HB ltac:(unfold session_fuel; lia)) as [W R].
-    split; [exact W|]. rewrite den_inc_left.
+    split; [exact W|]. rewrite (den_inc n rhs (v_globals v) Hinc).
     destruct (Arith ADD (gval (v_globals v) n) (VInt 1)) as [y|err] eqn:EA; cbn [fst snd].
     + rewrite (arith_ok_not_nil _ _ _ _ EA). cbn [fst snd]. exact R.
     + exact R.
